@@ -36,6 +36,7 @@ func init() {
 			"the creator's nonce bump on CREATE/CREATE2 belongs to the parent frame (EVM-specified)",
 			"balance records (evm.GetOTxs) are not world state; leftovers from failed inner frames are only counted as a probe",
 			"value-carrying CALLs cost >= 5e5 gas here (chain fee), so programs with value transfers are swept at instruction boundaries + samples, not at every gas value",
+			"boundary family: the jump table is read through reflection on unexported fields (Interpreter.cfg.JumpTable[i].valid/validateStack/memorySize, Stack.data); a rename there is reported as harness trouble, not as a violation. Operand triples are not enumerated (pairs + two settings of the remaining operands). The executions of one program share one StateDB and one EVM (snapshot before, revert after a successful call; Reset before each call, as the block processor does per transaction)",
 		},
 		QuickRuns: 3000, QuickBudget: 55 * time.Second,
 		ThoroughRuns: 40000, ThoroughBudget: 18 * time.Minute,
@@ -118,6 +119,12 @@ func run(c *kernel.Ctx) {
 	maxLimits := 160
 	if c.Tier == kernel.Thorough {
 		r.budget, maxLimits = 30_000_000, 700
+	}
+	// the directed operand-boundary family has its own stream, so that the
+	// random scenarios of all other seeds are what they were without it
+	if c.Tape.Fork("bnd").Bool(1, 25) {
+		r.runBoundary(ws, cfg)
+		return
 	}
 	scenario := cfg.Pick(40, 33, 10, 5, 12)
 	if c.Tier == kernel.Quick && scenario == 3 && !cfg.Bool(1, 3) {
@@ -510,7 +517,11 @@ func (r *runner) judge(rq request, x *result) bool {
 				return true
 			}
 		} else if x.root != r.pre0 {
-			if c.Violate("atomicity", "atomicity/top-level/"+x.class+"/root", "%s failed with %q, every getter is as before but the state root changed %x -> %x", d, x.err, r.pre0, x.root) {
+			if r.w.rootOnlyDiff(rq, x) == "zero-token-entry" {
+				if c.Violate("atomicity", "atomicity/failed-frame-leaves-zero-token-entry", "%s failed with %q, every getter is as before but the state root changed %x -> %x: the only difference to the pre-state's account records are token entries with balance 0 that were not there before (a token credit to an account that did not hold that token, rolled back with the frame)", d, x.err, r.pre0, x.root) {
+					return true
+				}
+			} else if c.Violate("atomicity", "atomicity/top-level/"+x.class+"/root", "%s failed with %q, every getter is as before but the state root changed %x -> %x", d, x.err, r.pre0, x.root) {
 				return true
 			}
 		}
